@@ -161,6 +161,19 @@ Section Final.
         * apply (Permutation_in _ (Permutation_sym Pm)). apply in_seq. lia.
         * apply rad_keep_iff. exact Hd.
   Qed.
+  (* the answers do not depend on what the caller does with its array after the construction *)
+  Theorem knn_exact_alias nodes P' q k : build P dim mls oracle = Ok nodes ->
+    exists res, query (self_points P P') nodes q k = Ok res /\
+      length res = Nat.min k (length P) /\
+      NoDup res /\ (forall i, In i res -> i < length P) /\
+      StronglySorted (fun a b => (sqdist P q a <= sqdist P q b)%Z) res /\
+      (forall i j, In i res -> j < length P -> ~ In j res -> (sqdist P q i <= sqdist P q j)%Z).
+  Proof. rewrite self_points_at_build. apply knn_exact. Qed.
+
+  Theorem radius_exact_alias nodes P' q r2 : build P dim mls oracle = Ok nodes ->
+    exists res, query_radius (self_points P P') nodes q r2 = Ok res /\ NoDup res /\
+      (forall j, In j res <-> (j < length P /\ (sqdist P q j <= r2)%Z)).
+  Proof. rewrite self_points_at_build. apply radius_exact. Qed.
 End Final.
 
 (* ---------------------------------------------------------------- non-vacuity: concrete inputs meet the hypotheses *)
